@@ -297,4 +297,86 @@ theorem out_node_closed_root (T : Tensor) (outL inL : TTN.LegSpec) (inId : Id) (
   rw [this]
   simp [nodeOfTensor]
 
+/-! ### the same with well-formedness of the node (no statement about the labels) -/
+
+theorem in_node_parent_facts (T : Tensor) (inL outL : TTN.LegSpec) (outId p : Id) (r : Nat)
+    (hp : inL.parentLeg = some p) (hroot : inL.isRoot = false)
+    (hn : T.length = 1 + 1 + inL.childLegs.length + r) (hnd : (outId :: inL.childLegs).Nodup) :
+    ∃ nn, TTN.buildInNode T inL outL outId = some nn ∧ WFN nn ∧ nn.shp = shapeOf T ∧
+      nn.parent = some p ∧ nn.children = outId :: inL.childLegs := by
+  have hc := in_node_closed_parent T inL outL outId p r hp hroot hn hnd
+  have hperm : ([1] ++ ([0] ++ List.range' 2 inL.childLegs.length) ++ List.range' (2 + inL.childLegs.length) r).Perm
+      (List.range T.length) := by
+    have := range_five 1 1 inL.childLegs.length r 0
+    rw [hn]
+    simp only [Nat.add_zero] at this
+    rw [this]
+    simp only [Nat.reduceAdd]
+    perm_blocks
+  exact ⟨_, hc, wfn_of_perm_range _ _ _ _ _ hperm (by simp [shapeOf]) (by simp; omega), rfl, rfl, rfl⟩
+
+theorem in_node_root_facts (T : Tensor) (inL outL : TTN.LegSpec) (outId : Id) (r : Nat)
+    (hp : inL.parentLeg = none) (hroot : inL.isRoot = true) (hop : outL.parentLeg = none)
+    (hn : T.length = 1 + inL.childLegs.length + r) (hnd : (outId :: inL.childLegs).Nodup) :
+    ∃ nn, TTN.buildInNode T inL outL outId = some nn ∧ WFN nn ∧ nn.shp = shapeOf T ∧
+      nn.parent = none ∧ nn.children = outId :: inL.childLegs := by
+  have hc := in_node_closed_root T inL outL outId r hp hroot hop hn hnd
+  exact ⟨_, hc, wfn_of_perm_range _ _ _ _ _ (List.Perm.refl _) (by simp [shapeOf]) (by simp; omega), rfl, rfl, rfl⟩
+
+theorem in_node_child_facts (T : Tensor) (inL outL : TTN.LegSpec) (outId : Id) (r : Nat)
+    (hp : inL.parentLeg = none) (hroot : inL.isRoot = false)
+    (hn : T.length = 1 + inL.childLegs.length + r) (hnd : inL.childLegs.Nodup) :
+    ∃ nn, TTN.buildInNode T inL outL outId = some nn ∧ WFN nn ∧ nn.shp = shapeOf T ∧
+      nn.parent = some outId ∧ nn.children = inL.childLegs := by
+  have hc := in_node_closed_child T inL outL outId r hp hroot hn hnd
+  exact ⟨_, hc, wfn_of_perm_range _ _ _ _ _ (List.Perm.refl _) (by simp [shapeOf]) (by simp; omega), rfl, rfl, rfl⟩
+
+theorem out_node_child_facts (T : Tensor) (outL inL : TTN.LegSpec) (inId : Id) (r : Nat)
+    (hp : outL.parentLeg = none) (hroot : outL.isRoot = false)
+    (hin : inL.isRoot = true ∨ inL.parentLeg.isSome = true)
+    (hn : T.length = outL.childLegs.length + r + 1) (hnd : outL.childLegs.Nodup) :
+    ∃ nn, TTN.buildOutNode T outL inL inId = some nn ∧ WFN nn ∧ nn.shp = shapeOf T ∧
+      nn.parent = some inId ∧ nn.children = outL.childLegs := by
+  have hc := out_node_closed_child T outL inL inId r hp hroot hin hn hnd
+  have hperm : ([outL.childLegs.length + r] ++ List.range' 0 outL.childLegs.length ++
+      List.range' outL.childLegs.length r).Perm (List.range T.length) := by
+    have := range_five outL.childLegs.length r 1 0 0
+    rw [hn]
+    simp only [Nat.add_zero] at this
+    rw [this]
+    perm_blocks
+  exact ⟨_, hc, wfn_of_perm_range _ _ _ _ _ hperm (by simp [shapeOf]) (by simp; omega), rfl, rfl, rfl⟩
+
+theorem out_node_parent_facts (T : Tensor) (outL inL : TTN.LegSpec) (inId p : Id) (r : Nat)
+    (hp : outL.parentLeg = some p) (hroot : outL.isRoot = false)
+    (hin1 : inL.isRoot = false) (hin2 : inL.parentLeg = none)
+    (hn : T.length = 1 + outL.childLegs.length + r + 1) (hnd : (inId :: outL.childLegs).Nodup) :
+    ∃ nn, TTN.buildOutNode T outL inL inId = some nn ∧ WFN nn ∧ nn.shp = shapeOf T ∧
+      nn.parent = some p ∧ nn.children = inId :: outL.childLegs := by
+  have hc := out_node_closed_parent T outL inL inId p r hp hroot hin1 hin2 hn hnd
+  have hperm : ([0] ++ ([1 + outL.childLegs.length + r] ++ List.range' 1 outL.childLegs.length) ++
+      (List.range' (1 + outL.childLegs.length) r ++ [])).Perm (List.range T.length) := by
+    have := range_five 1 outL.childLegs.length r 1 0
+    rw [hn]
+    simp only [Nat.add_zero] at this
+    rw [this]
+    perm_blocks
+  exact ⟨_, hc, wfn_of_perm_range _ _ _ _ _ hperm (by simp [shapeOf]) (by simp; omega), rfl, rfl, rfl⟩
+
+theorem out_node_root_facts (T : Tensor) (outL inL : TTN.LegSpec) (inId : Id) (r : Nat)
+    (hp : outL.parentLeg = none) (hroot : outL.isRoot = true)
+    (hin1 : inL.isRoot = false) (hin2 : inL.parentLeg = none)
+    (hn : T.length = outL.childLegs.length + r + 1) (hnd : (inId :: outL.childLegs).Nodup) :
+    ∃ nn, TTN.buildOutNode T outL inL inId = some nn ∧ WFN nn ∧ nn.shp = shapeOf T ∧
+      nn.parent = none ∧ nn.children = inId :: outL.childLegs := by
+  have hc := out_node_closed_root T outL inL inId r hp hroot hin1 hin2 hn hnd
+  have hperm : ([] ++ ([outL.childLegs.length + r] ++ List.range' 0 outL.childLegs.length) ++
+      (List.range' outL.childLegs.length r ++ [])).Perm (List.range T.length) := by
+    have := range_five outL.childLegs.length r 1 0 0
+    rw [hn]
+    simp only [Nat.add_zero] at this
+    rw [this]
+    perm_blocks
+  exact ⟨_, hc, wfn_of_perm_range _ _ _ _ _ hperm (by simp [shapeOf]) (by simp; omega), rfl, rfl, rfl⟩
+
 end Ptn.C02
